@@ -416,6 +416,17 @@ theorem rotate_layout_fact :
        "err = proj.rotate(config.Setting.DATABASE_DATA, logger.Logger)",
        "return err"] := ⟨rfl, rfl⟩
 
+/-- **Where the record is read from and written to** (re-extracted): `getSetting` reads `settings_dist` exactly when
+    `dist`, else `settings`; `putSetting` inserts into the connected node's `settings`. -/
+theorem settings_tables_fact :
+    "settings := \"settings\"" ∈ Qryn.Gen.CtrlFlow.getSetting ∧
+    "if dist { settings += \"_dist\" }" ∈ Qryn.Gen.CtrlFlow.getSetting ∧
+    (Qryn.Gen.CtrlFlow.getSetting.filter fun l => l.startsWith "rows, err := db.Query(") =
+      ["rows, err := db.Query(context.Background(), fmt.Sprintf(`SELECT argMax(value, inserted_at) as _value FROM %s WHERE fingerprint = $1 GROUP BY fingerprint HAVING argMax(name, inserted_at) != ''`, settings), fp)"] ∧
+    Qryn.Gen.CtrlFlow.getSetting.length = 8 ∧
+    "err := db.Exec(context.Background(), `INSERT INTO settings (fingerprint, type, name, value, inserted_at) VALUES ($1, $2, $3, $4, now64(9))`, fp, tp, name, value)" ∈ Qryn.Gen.CtrlFlow.putSetting := by
+  decide +kernel
+
 /-- a configured cluster: `ON CLUSTER` on every ALTER, records read from `settings_dist` -/
 def Clustered (c : Cfg) : Prop := c.dist = true ∧ c.cluster ≠ []
 
